@@ -292,15 +292,17 @@ def run_real(case):
                 got, end = _read_all(lambda: io.BytesIO(f.getvalue()))
                 nfaults += 1
                 gobs = [V.observe(r) for r in got]
-                j = 0
-                for g in gobs:
-                    while j < len(okidx) and full_obs[okidx[j]] != g:
-                        j += 1
-                    if j == len(okidx):
-                        problems.append(f"write fault fail@{at}, producer carried on: the reader yields a record that "
-                                        f"was not written (or an altered one): {str(g)[:160]}")
-                        break
-                    j += 1
+                # exactly the records whose write() returned, in order, as a PREFIX: the reader may stop with an error at
+                # the hole (or at the first record whose descriptor frame was lost), it may not skip over it and go on
+                want = [full_obs[i] for i in okidx]
+                if gobs != want[:len(gobs)]:
+                    k_ = next((i for i, (a_, b_) in enumerate(zip(gobs, want)) if a_ != b_), min(len(gobs), len(want)))
+                    problems.append(f"write fault fail@{at}, producer carried on: records yielded are not a prefix of the "
+                                    f"completely written ones (first difference at position {k_}: "
+                                    f"{str(gobs[k_] if k_ < len(gobs) else None)[:120]})")
+                elif end == "eof" and len(gobs) != len(want):
+                    problems.append(f"write fault fail@{at}, producer carried on: the reader ended cleanly after "
+                                    f"{len(gobs)} of {len(want)} completely written records")
         return {"len": len(data), "stream": data.hex(), "hashes": hashes, "per_cut": per_cut, "ncuts": ncuts,
                 "nfaults": nfaults, "n_records": len(recs), "n_frames": len(frames), "full_end": end_full,
                 "problems": problems[:5], "n_problems": len(problems)}
